@@ -18,6 +18,18 @@ def is_error_call(n):
     return n["k"] in ("CallExpr", "CXXMemberCallExpr") and n.get("cq") in ERROR_FUNCS
 
 
+def is_bug_error(n):
+    """cvm::error(..., COLVARS_BUG_ERROR): an internal-consistency assertion, not the
+    rejection of a user-supplied value."""
+    args = X.call_args(n)
+    if len(args) >= 2:
+        a = X.strip(args[1])
+        if a["k"] == "CXXDefaultArgExpr" and X.kids(a):
+            a = X.strip(X.kids(a)[0])
+        return a["k"] == "DeclRefExpr" and a.get("n") in ("COLVARS_BUG_ERROR", "COLVARS_NOT_IMPLEMENTED", "COLVARS_MEMORY_ERROR")
+    return False
+
+
 def member_root(n):
     """For this.nx[i] / this.nx.at(i) / (*this).x -> the MemberExpr on `this`; else None."""
     n = X.strip(n)
@@ -439,5 +451,210 @@ class R1:
         for key, (ok, loc, what, detail, fq) in seen.items():
             rep.add(self.rid, key, loc, what, ok, detail=detail, func=fq)
 
+
+
+class R2:
+    """No hazardous use downstream of a non-returning rejection."""
+    rid = "C10-R2"
+    text = ("a value rejected by cvm::error() on a branch that does not leave the function is not used "
+            "afterwards as a vector index, an integer divisor or an allocation size")
+
+    SIZE_METHODS = ("resize", "assign", "reserve")
+
+    def __init__(self, F, rep):
+        self.F, self.rep = F, rep
+
+    def keys_in(self, f, n, res):
+        """Keys of members/locals mentioned in expression n, plus vector roots whose
+        .size() is taken."""
+        ks, sizes = set(), set()
+        recv = set()
+        for x in f.walk(n):
+            if x["k"] == "CXXMemberCallExpr" and X.callee_name(x) in ("size", "empty"):
+                r = X.receiver(x)
+                if r is not None:
+                    recv.add(X.strip(r)["i"])
+        for x in f.walk(n):
+            if x["i"] in recv:
+                continue
+            if x["k"] == "MemberExpr" and x.get("dk") == "Field":
+                ks.add(X.key(x, f, res))
+            elif x["k"] == "DeclRefExpr" and x.get("st") in ("local", "param"):
+                ks.add(X.key(x, f))
+            elif x["k"] == "CXXMemberCallExpr" and X.callee_name(x) in ("size", "empty"):
+                r = X.receiver(x)
+                if r is not None:
+                    sizes.add(X.key(r, f, res))
+        return ks, sizes
+
+    def slice_keys(self, f, n, res, defs, depth=0, seen=None):
+        """Keys reachable by following local definitions backwards from n."""
+        seen = seen if seen is not None else set()
+        out = set()
+        for x in f.walk(n):
+            if x["k"] == "MemberExpr" and x.get("dk") == "Field":
+                out.add(X.key(x, f, res))
+            elif x["k"] == "DeclRefExpr" and x.get("st") in ("local", "param") and "d" in x:
+                out.add(X.key(x, f))
+                if x["d"] not in seen and depth < 6:
+                    seen.add(x["d"])
+                    for d in defs.get(x["d"], ()):
+                        out |= self.slice_keys(f, d, res, defs, depth + 1, seen)
+        return out
+
+    def run(self):
+        F, rep = self.F, self.rep
+        rep.rule(self.rid, self.text)
+        results = {}
+        for f in F.funcs.values():
+            if "/src/" not in f.file:
+                continue
+            errs = [n for n in f.walk() if is_error_call(n) and not is_bug_error(n)]
+            if not errs or not f.cfg.ok:
+                continue
+            res = X.const_locals(f)
+            # local definitions
+            defs = {}
+            for n in f.walk():
+                if n["k"] == "VarDecl" and X.kids(n):
+                    defs.setdefault(n["d"], []).append(X.kids(n)[0])
+                elif n["k"] in ("BinaryOperator", "CompoundAssignOperator") and n["op"].endswith("=") and n["op"] not in ("==", "!=", "<=", ">="):
+                    l = X.strip(X.kids(n)[0])
+                    if l["k"] == "DeclRefExpr" and "d" in l:
+                        defs.setdefault(l["d"], []).append(X.kids(n)[1])
+            hazards = None
+            for e in errs:
+                gs = f.cfg.guards(e)
+                if not gs:
+                    continue
+                # does the error branch fall through to later code?
+                rep.count("rejection_sites")
+                per_guard = []
+                known = set()
+                for cid, pol in gs:
+                    cn = f.nodes[cid]
+                    ks, sizes = self.keys_in(f, cn, res)
+                    fs = C.facts(f, cn, pol, res)
+                    known |= fs
+                    rng = any(t[0] in ("z", "nonpos", "neg") or (t[0] == "cmp" and t[1] in ("<", "<=", ">", ">="))
+                              for t in fs)
+                    # a vector is rejected as too short / mismatched only if the guard
+                    # compares its size with another count, or says it is empty
+                    deficient = set()
+                    for v in sizes:
+                        sk = "%s.size()" % v
+                        for t in fs:
+                            if t[0] in ("z", "nonpos") and t[1] == sk:
+                                deficient.add(v)
+                            elif t[0] == "cmp" and sk in (t[2], t[3]):
+                                other = t[3] if t[2] == sk else t[2]
+                                lit = other.lstrip("-").replace(".", "").isdigit()
+                                op = t[1] if t[2] == sk else C.SWAP[t[1]]
+                                if not lit and op in ("!=", "<", "<=", ">", ">="):
+                                    deficient.add(v)
+                                elif lit and op in ("<", "<=", "!="):
+                                    deficient.add(v)
+                    per_guard.append(((cid, pol), ks if rng else set(), deficient))
+                # the error code returned by cvm::error is non-zero: `ec |= cvm::error()`
+                par = f.parent(e)
+                if par is not None and par["k"] in ("BinaryOperator", "CompoundAssignOperator") and par["op"] in ("|=", "="):
+                    kx = X.key(X.kids(par)[0], f, res)
+                    known |= {("nz", kx), ("true", kx), ("pos", kx)}
+
+                def feasible(blk, i, _known=known):
+                    b = f.cfg.blocks[blk]
+                    if b.get("cond") is None or len(b["s"]) != 2 or b.get("tk") in ("SwitchStmt", "CXXTryStmt"):
+                        return True
+                    ef = C.facts(f, f.nodes[b["cond"]], i == 0, res)
+                    return not C.contradicts(ef, _known)
+                if not any(a or b for _, a, b in per_guard):
+                    continue
+                if hazards is None:
+                    hazards = self.hazards(f, res, defs)
+                for kind, node, keys, desc in hazards:
+                    # context guards shared by the error and the later use are not the rejection
+                    hg = set(f.cfg.guards(node))
+                    v_range, v_size = set(), set()
+                    for g, a, b in per_guard:
+                        if g in hg:
+                            continue
+                        v_range |= a
+                        v_size |= b
+                    if kind == "index":
+                        hit = keys & v_size
+                    else:
+                        hit = keys & v_range
+                    if not hit:
+                        continue
+                    if not f.cfg.can_reach_feasible(e, node, feasible):
+                        continue
+                    # the hazard itself may be guarded against the rejected condition
+                    if self.hazard_guarded(f, kind, node, hit, res):
+                        continue
+                    key = "%s|%s|%s" % (f.q, kind, desc)
+                    results[key] = (False, f.loc(node),
+                                    "%s `%s` is reachable after the rejection of %s reported at line %d without leaving the function"
+                                    % ({"index": "vector index into", "div": "integer division by", "size": "allocation size"}[kind],
+                                       desc, ", ".join(sorted(re_strip(h) for h in hit)), e.get("l", 0)),
+                                    "error call at %s does not return; guards: %s" % (
+                                        f.loc(e), "; ".join("%s is %s" % (X.text(f.nodes[c], f), p) for c, p in gs)), f.q)
+            # every rejection site is an obligation (discharged unless a hazard was found)
+        n_fail = 0
+        for key, (ok, loc, what, detail, fq) in results.items():
+            rep.add(self.rid, key, loc, what, ok, detail=detail, func=fq)
+            n_fail += 1
+        # summary obligation per function with rejections and no finding keeps the count honest
+        for f in F.funcs.values():
+            if "/src/" not in f.file:
+                continue
+            n = sum(1 for x in f.walk() if is_error_call(x))
+            if n and not any(k.startswith(f.q + "|") for k in results):
+                rep.add(self.rid, "%s|clean" % f.q, f.loc(), "%d error call(s): no rejected value is used hazardously afterwards" % n,
+                        True, func=f.q)
+
+    def hazards(self, f, res, defs):
+        out = []
+        for n in f.walk():
+            k = n["k"]
+            if k == "CXXOperatorCallExpr" and n.get("op") == "[]":
+                args = X.call_args(n)
+                if len(args) == 2 and "std::vector" in f.type(X.strip(args[0], explicit=False)):
+                    out.append(("index", n, {X.key(args[0], f, res)}, X.text(args[0], f)))
+            elif k in ("BinaryOperator", "CompoundAssignOperator") and n["op"] in ("/", "%", "/=", "%="):
+                a, b = X.kids(n)
+                if X.is_int_type(f.type(X.strip(b, explicit=False))) and X.is_int_type(f.type(X.strip(a, explicit=False))):
+                    out.append(("div", n, self.slice_keys(f, b, res, defs), X.text(b, f)))
+            elif k == "CXXMemberCallExpr" and X.callee_name(n) in self.SIZE_METHODS:
+                args = X.call_args(n)
+                r = X.receiver(n)
+                if args and r is not None:
+                    out.append(("size", n, self.slice_keys(f, args[0], res, defs),
+                                "%s.%s(%s)" % (X.text(r, f), X.callee_name(n), X.text(args[0], f))))
+            elif k == "CXXNewExpr" and n.get("array"):
+                cs = X.kids(n)
+                if cs:
+                    out.append(("size", n, self.slice_keys(f, cs[0], res, defs), "new[%s]" % X.text(cs[0], f)))
+        return out
+
+    def hazard_guarded(self, f, kind, node, hit, res):
+        facts, gs = C.guard_facts(f, node, res)
+        if kind == "index":
+            args = X.call_args(node)
+            ki = X.key(args[1], f, res)
+            kv = X.key(args[0], f, res)
+            for t in facts:
+                if t[0] == "cmp" and t[1] == "<" and t[2] == ki and t[3] == "%s.size()" % kv:
+                    return True
+                if t[0] in ("pos", "nz", "true") and t[1] == "%s.size()" % kv and X.strip(args[1])["k"] == "IntegerLiteral" and X.strip(args[1])["v"] == 0:
+                    return True
+        return False
+
+
+def re_strip(s):
+    import re
+    return re.sub(r"#\d+", "", s)
+
+
 def run(F, rep, tier):
     R1(F, rep).run()
+    R2(F, rep).run()
